@@ -117,7 +117,8 @@ MAXN = 6000          # dense references only up to this many elements
 
 TT_FAMILIES = ['generic', 'generic', 'int', 'int', 'const', 'const2', 'pos',
     'neg', 'shift', 'shift', 'rank1', 'rank1', 'rank1', 'rank1int',
-    'rank1pad', 'overrank', 'deficient', 'mode1', 'd2', 'scaled', 'zero']
+    'rank1pad', 'overrank', 'deficient', 'mode1', 'd2', 'scaled', 'zero',
+    'tiny', 'huge']
 QTT_FAMILIES = ['generic', 'generic', 'int', 'const', 'pos', 'shift',
     'rank1', 'rank1', 'rank1int', 'overrank', 'zero']
 FUNC_FAMILIES = ['generic', 'generic', 'generic', 'int', 'decay', 'mode1',
@@ -282,6 +283,18 @@ def make_tensor(rng, family, maxN, n=None):
     elif family == 'scaled':
         Y = gen.cores(rng, n, r, 'normal')
         Y[int(rng.integers(d))] *= 10.0 ** int(rng.integers(-6, 7))
+    elif family in ('tiny', 'huge'):
+        # every entry far from 1 (but the tensor well inside the double
+        # range): squares of entries under/overflow unless the routine
+        # normalises before squaring
+        Y = gen.cores(rng, n, r if rng.random() < 0.6 else [1] * (d + 1),
+            'normal')
+        meta['rank1'] = all(x == 1 for x in ref.ranks_of(Y))
+        # |entries| within 1e-150..1e150: the documented algorithm of optima_tt
+        # squares the shifted tensor, so entries must have representable squares
+        ex = float(rng.choice([60, 90, 140])) * (1 if family == 'huge' else -1)
+        for G in Y:
+            G *= 10.0 ** (ex / d)
     elif family == 'zero':
         Y = gen.cores(rng, n, r, 'normal')
         Y[int(rng.integers(d))] *= 0.
@@ -354,7 +367,9 @@ class Info:
     @property
     def tolv(self):
         if self._tolv is None:
-            self._tolv = ref.tol_tt(self.Y, C)
+            # + the resolution of a double near zero: an entry below the
+            # smallest subnormal (4.9e-324) cannot be returned as a float
+            self._tolv = ref.tol_tt(self.Y, C) + ref.LD(2e-323)
         return self._tolv
 
 
@@ -921,6 +936,27 @@ def case_qtt(case, ctx, teneva, rng):
     pruned, full = k_list(rng, N)
     first = {}
     judged_exact = False
+    # lossy quantisation (explicit rank cap / coarse accuracy): whatever is
+    # found, the reported values must be entries of Y at the reported indices
+    for e_q, r_q in ((1e-2, 1), (1e-1, 2), (1e-12, 2)):
+        ST.depth += 1
+        try:
+            res = teneva.optima_qtt(Y, full[0] if full else 10, e_q, r_q)
+        finally:
+            ST.depth -= 1
+        ok = isinstance(res, tuple) and len(res) == 4 and \
+            valid_index(res[0], n) and valid_index(res[2], n) and \
+            is_real(res[1]) and is_real(res[3])
+        if not ctx.check('qtt-index', ok, 'optima_qtt(lossy): malformed '
+                'result', e=e_q, r=r_q, result=res, shape=n):
+            continue
+        ctx.close('qtt-value-lossy', [res[1], res[3]], [at(inf.A, res[0]),
+            at(inf.A, res[2])], [at(inf.tolv, res[0]), at(inf.tolv, res[2])],
+            f'optima_qtt(e={e_q}, r={r_q}): a reported value is not the entry '
+            'of the tensor at its reported index', i_min=np.asarray(res[0]),
+            i_max=np.asarray(res[2]))
+        ctx.check('qtt-order', bool(res[1] <= res[3]), 'optima_qtt(lossy): '
+            f'reported minimum {res[1]!r} exceeds reported maximum {res[3]!r}')
     for k in pruned[:2] + pruned[3:] + full:
         fr = {'max': [], 'tt': []}
         ST.frames.append(fr)
